@@ -296,6 +296,15 @@ PropViolations(e, o) ==
                /\ st["A"].peer = "B" /\ st["B"].peer = "A" /\ st["A"].rev # st["B"].rev)
         THEN {<<"C07", "key exchange did not complete">>} ELSE {})
 
+\* the observed step, projected on key ids and key-id-pair tables, is a step of Ratchet.tla (whose bound holds for all histories)
+RT == INSTANCE Ratchet WITH r <- [oid |-> 0, tid |-> 0, ctrs |-> {}, macs |-> {}]
+RProj(s) == [oid |-> s.oid, tid |-> s.tid, ctrs |-> {<<c[1], c[2]>> : c \in s.ctrs}, macs |-> {<<k[1], k[2]>> : k \in s.macs}]
+RProjL(x) == [oid |-> x.oid, tid |-> x.tid, ctrs |-> {<<x.ctrs[i][1], x.ctrs[i][2]>> : i \in DOMAIN x.ctrs},
+              macs |-> {<<x.macs[i][1], x.macs[i][2]>> : i \in DOMAIN x.macs}]
+RatchetViolations(e) ==
+  IF e.ev # "Done" /\ ~e.rf /\ e.st.ms # "broken" /\ ~RT!RStep(RProj(st[e.p]), RProjL(e.st))
+  THEN {<<"C19", "key ids and the tables indexed by key-id pairs did not evolve by a step of the bounded ratchet (Ratchet.tla)">>} ELSE {}
+
 MultiPaired(q) == /\ st["A"].ms = "enc" /\ st[q].ms = "enc" /\ st["A"].sess = st[q].sess /\ st["A"].sess # <<0, 0>>
                   /\ st["A"].ttag = TagOf(q) /\ st[q].ttag = 1 /\ st["A"].rev # st[q].rev /\ st["A"].peer = "B" /\ st[q].peer = "A"
 MultiViolations(e, o) ==
@@ -328,7 +337,7 @@ DoStep(e) ==
       \* returns; the state it leaves behind is adopted and everything that follows is validated
       d == IF e.rf THEN (IF e.panic THEN {"panic"} ELSE {}) ELSE ResultDiffs(e, r) \cup StateDiffs(e, r)
       o == NextObs(e)
-      pv == {v \in PropViolations(e, o) \cup MultiViolations(e, o) : v \notin obs.flagged}
+      pv == {v \in PropViolations(e, o) \cup MultiViolations(e, o) \cup RatchetViolations(e) : v \notin obs.flagged}
   IN /\ st' = [st EXCEPT ![e.p] = IF NoResync /\ ~e.rf THEN r.s ELSE Resync(r.s, e.st)]
      /\ IF d = {} THEN mism' = mism ELSE /\ Report(e, r, d)
                                          /\ mism' = mism + 1
